@@ -188,8 +188,8 @@ func (ef *Effects) Writes() bool {
 }
 
 type effectsAnalysis struct {
-	w    *World
-	sum  map[*ssa.Function]*Effects
+	w   *World
+	sum map[*ssa.Function]*Effects
 	// full: the finished context-insensitive summaries while the second,
 	// callback-sensitive pass runs (nil during the first pass)
 	full map[*ssa.Function]*Effects
@@ -205,7 +205,7 @@ func (w *World) Effects() map[*ssa.Function]*Effects {
 	a := &effectsAnalysis{w: w, sum: map[*ssa.Function]*Effects{}}
 	var fns []*ssa.Function
 	for fn := range w.AllFuncs {
-		if w.InRepo(fn) && fn.Blocks != nil {
+		if w.Inlinable(fn) && fn.Blocks != nil {
 			if fn.TypeParams().Len() > 0 && len(fn.TypeArgs()) == 0 {
 				continue
 			}
